@@ -15,6 +15,7 @@ def run(ctx):
     R2 = ctx.rule('C11.R2', 'nesting depth is bounded: every push is inside the loop guarded by stack.size() <= json_max_depth; no recursion')
     R3 = ctx.rule('C11.R3', 'string tokens are accepted only after utf8::validate over the whole decoded string; control characters rejected')
     R4 = ctx.rule('C11.R4', 'a duplicate object key leads to the error state before anything is stored')
+    R5 = ctx.rule('C11.R5', 'string writer (generic_append) is exact against RFC 8259 section 7: every byte sequence of length 1 and 2 is written as a quoted string that decodes back to it, with ", \\ and U+0000..U+001F escaped (E3)')
     R6 = ctx.rule('C11.R6', 'numbers are written / read under the C locale: write() brackets write_value(), the tokenizer brackets the stream; every public writer goes through write()')
     R7 = ctx.rule('C11.R7', 'integer / float extraction returns only past the round-trip / range comparison')
 
@@ -183,9 +184,144 @@ def run(ctx):
             ok = ok and bool(thr)
         ctx.check(ok, R7, 'traits<%s>::get:checked' % f.ret, 'a number that does not fit is returned silently truncated', f.where)
 
+
+    # ---------------- R5 writer escape table (E3)
+    from vlib import absint
+    from vlib.absint import AV, Arr, PV, Cell, Out, Unsupported
+    gas = [f for f in P.fns.values() if f.bname == J + '::details::generic_append' and f.entry is not None]
+    ctx.require(gas, 'C11.R5: json::details::generic_append instantiations not found')
+    APP = ('cppcms::json::details::string_append::append', 'cppcms::json::details::stream_append::append')
+
+    def app_hook(it, fn, i, env):
+        a = [it.rvalue(fn, x, env) for x in fn.args(i)]
+        out = it.sink
+        if len(a) == 1 and isinstance(a[0], AV):
+            it.emit(out, a[0])
+        elif len(a) == 1 and isinstance(a[0], PV):
+            it.emit(out, a[0])          # NUL-terminated C string
+        elif len(a) == 2 and isinstance(a[0], PV) and isinstance(a[1], AV):
+            if not a[1].is_const():
+                it.split_on(a[1].deps)
+            for j in range(a[1].lo):
+                it.emit(out, it.load(('elem', PV(a[0].arr, a[0].off + j))))
+        else:
+            raise Unsupported('appender call shape')
+        return AV.const(0)
+    hooks = {k: app_hook for k in APP}
+
+    def decode(items):
+        """RFC 8259 string -> list of byte sets, or None if not a well-formed quoted string without raw control/quote/backslash characters.
+        items: list of frozenset of unsigned byte values; escapes must be concrete (singletons)"""
+        if len(items) < 2 or items[0] != frozenset([0x22]) or items[-1] != frozenset([0x22]):
+            return None
+        body, out, k = items[1:-1], [], 0
+        while k < len(body):
+            e = body[k]
+            if e == frozenset([0x5C]):
+                if k + 1 >= len(body) or len(body[k + 1]) != 1:
+                    return None
+                c = next(iter(body[k + 1]))
+                simple = {0x22: 0x22, 0x5C: 0x5C, 0x2F: 0x2F, 0x62: 8, 0x66: 12, 0x6E: 10, 0x72: 13, 0x74: 9}
+                if c in simple:
+                    out.append(frozenset([simple[c]]))
+                    k += 2
+                    continue
+                if c == 0x75:
+                    hx = body[k + 2:k + 6]
+                    if len(hx) != 4 or any(len(h) != 1 for h in hx):
+                        return None
+                    try:
+                        v = int(bytes(next(iter(h)) for h in hx).decode('ascii'), 16)
+                    except ValueError:
+                        return None
+                    if v > 0x7F:
+                        return None
+                    out.append(frozenset([v]))
+                    k += 6
+                    continue
+                return None
+            if any(v <= 0x1F or v in (0x22, 0x5C) for v in e):
+                return None      # must have been escaped
+            out.append(e)
+            k += 1
+        return out
+    CLS = [(b, b) for b in range(0, 0x20)] + [(0x20, 0x21), (0x22, 0x22), (0x23, 0x5B), (0x5C, 0x5C), (0x5D, 0x7F), (0x80, 0xFF)]
+    from rules.C15 import out_bytes
+    for ga in sorted(gas, key=lambda g: g.id):
+        pt = ga.types[ga.params[2]['t']]
+        tagn = 'string' if 'string_append' in pt else 'stream' if 'stream_append' in pt else pt[-24:]
+        for nlen in (0, 1, 2):
+            bad = None
+            nb = 0
+
+            def run(it, nlen=nlen, ga=ga):
+                it.hooks = hooks
+                it.sink = Out('json')
+                arr = Arr([it.inbyte(k) for k in range(nlen)] + [AV.const(0)], 'input')
+                it.call_fn(ga, [PV(arr, 0), PV(arr, nlen), Cell(Out('appender'))])
+                return it.sink
+            boxes = [[]] if nlen == 0 else [[c] for c in CLS] if nlen == 1 else [[c, d] for c in CLS for d in CLS]
+            for (bx, o, it) in absint.explore(P, run, boxes, max_boxes=400000):
+                nb += 1
+                got = decode(out_bytes(o))
+                want = [frozenset(range(lo, hi + 1)) for (lo, hi) in bx]
+                if got != want:
+                    bad = bad or (bx, [sorted(x)[:4] for x in out_bytes(o)])
+            ctx.check(bad is None, R5, 'generic_append<%s>:len=%d:decodes-back-and-escapes' % (tagn, nlen), ('input %s written as %s' % bad) if bad else '', ga.where, detail={'boxes': nb})
+    # reader side: the escape switch of parse_string maps each RFC 8259 escape letter to its character, nothing else
+    sws = [i for i in pstr.walk() if pstr.N(i)['k'] == 'SwitchStmt']
+    SPEC = {0x22: 0x22, 0x5C: 0x5C, 0x2F: 0x2F, 0x62: 8, 0x66: 12, 0x6E: 10, 0x72: 13, 0x74: 9}
+    esc = None
+    for sw in sws:
+        labels = [pstr.const_value(pstr.N(j)['lhs']) for j in pstr.walk(sw) if pstr.N(j)['k'] == 'CaseStmt']
+        if 0x6E in labels and 0x75 in labels:
+            esc = sw
+    ctx.require(esc is not None, 'C11.R5: the escape-letter switch of parse_string was not found (anchor moved)')
+    if esc is not None:
+        cv = pstr.ref_of(pstr.N(esc)['cond']) if pstr.N(esc).get('cond', -1) >= 0 else None
+        got = {}
+        pending = []
+        dflt_rejects = False
+        body = pstr.N(esc)['body'] if pstr.N(esc).get('body', -1) >= 0 else esc
+
+        def first_stmt(j):
+            # CaseStmt nests: case a: case b: stmt
+            labs = []
+            while pstr.N(j)['k'] in ('CaseStmt', 'DefaultStmt'):
+                labs.append(pstr.const_value(pstr.N(j)['lhs']) if pstr.N(j)['k'] == 'CaseStmt' else 'default')
+                j = pstr.N(j)['sub']
+            return labs, j
+        for j in pstr.N(body)['ch']:
+            if pstr.N(j)['k'] not in ('CaseStmt', 'DefaultStmt'):
+                continue
+            labs, st = first_stmt(j)
+            stn = pstr.N(pstr.strip(st)) if pstr.N(st)['k'] not in ('ReturnStmt', 'CompoundStmt') else pstr.N(st)
+            val = None
+            if stn['k'] == 'CXXOperatorCallExpr' and stn.get('op') == '+=' and (pstr.ref_of(stn['ch'][1]) or '').endswith('tockenizer::str'):
+                a = stn['ch'][2]
+                if pstr.const_value(a) is not None:
+                    val = ('const', pstr.const_value(a))
+                elif cv is not None and cv in pstr.subtree_refs(a) and not [x for x in pstr.walk(a) if pstr.N(x)['k'] in ('BinaryOperator', 'UnaryOperator', 'CallExpr')]:
+                    val = ('same',)
+            elif stn['k'] == 'ReturnStmt' and pstr.const_value(pstr.ret_value(st)) == 0:
+                val = ('reject',)
+            for lb in labs:
+                got[lb] = val
+        badm = []
+        for letter, ch in sorted(SPEC.items()):
+            v = got.get(letter)
+            okv = v == ('const', ch) or (v == ('same',) and letter == ch)
+            if not okv:
+                badm.append('\\%s -> %s' % (chr(letter), v))
+        extra = [lb for lb in got if lb not in SPEC and lb not in (0x75, 'default')]
+        ctx.check(not badm, R5, 'parse_string:escape-letters-map-to-their-characters', 'escape table differs from RFC 8259: %s' % badm, pstr.loc(esc))
+        ctx.check(not extra, R5, 'parse_string:no-extra-escapes', 'escape letters outside RFC 8259 accepted: %s' % [chr(x) if isinstance(x, int) else x for x in extra], pstr.loc(esc))
+        ctx.check(got.get('default') == ('reject',), R5, 'parse_string:unknown-escape-rejected', 'an unknown escape letter is not rejected', pstr.loc(esc))
+    ctx.trust('RFC 8259 section 7 decoder embedded in rules/C11.py (C11.R5); the two appender structs are modelled as an emission log')
     ctx.floor(R1, 8)
     ctx.floor(R2, 4)
     ctx.floor(R3, 4)
     ctx.floor(R4, 3)
+    ctx.floor(R5, 10)
     ctx.floor(R6, 7)
     ctx.floor(R7, 10)
